@@ -1129,6 +1129,11 @@ def rule_G(ctx):
         run('functions', ('bin', '/', ('bin', '-', RATE, ('fun', 'AVG', RATE)), ('fun', agg, RATE)))
         run('functions', ('bin', '*', ('bin', '-', B, ('bin', '*', RATE, B)), ('fun', agg, RATE)))
         run('functions', ('bin', '-', ('bin', '+', ('fun', 'SUM', B), ('fun', agg, RATE)), ('fun', 'SUM', ('bin', '*', B, B))))
+    # an aggregate as the argument of another function (the aggregate is a constant feature there)
+    for outer, agg, arg in (('SQRT', 'VAR', RATE), ('ABS', 'MIN', B), ('D', 'AVG', RATE), ('EXP', 'MIN', B), ('SQRT', 'MAX', RATE), ('ABS', 'SUM', B)):
+        run('functions', ('fun', outer, ('fun', agg, arg)))
+        run('functions', ('bin', '+', B, ('fun', outer, ('fun', agg, arg))))
+    run('functions', ('fun', 'SQRT', ('fun', 'ABS', ('fun', 'MIN', B))), target='r')
     run('functions', ('fun', 'MIN', ('fun', 'D', RATE)))
     run('functions', ('bin', '-', B, ('fun', 'MAX', ('fun', 'D', B))))
     # every function applied to a vector whose FIRST value is NaN (what a derivative gives) and to one whose LAST value is NaN
